@@ -8,7 +8,7 @@ import ast
 
 from ..contracts.hull import Hull
 from ..contracts.small import ThresholdOpCall, ThresholdOpInit
-from ..contracts.tradeoff import TradeoffPoints, X_METRICS, Y_METRICS
+from ..contracts.tradeoff import GetCounts, GetScoresLabelsCounts, TradeoffPoints, X_METRICS, Y_METRICS
 from ..pyvc import verify
 
 
@@ -43,7 +43,9 @@ def run_deductive(rep):
               "natural-number induction schema for the ghost counting function cnt", "z3", "pyvc symbolic executor")
     items = tradeoff_items(rep.tier) + [hull_item(),
             (ThresholdOpCall(), [("swap_operator", verify.reverse_compare(0, lambda c: "y_hat" in ast.unparse(c)))]),
-            (ThresholdOpInit(), [])]
+            (ThresholdOpInit(), []),
+            (GetScoresLabelsCounts(), [("sorted_ascending", verify.replace_const(False, True, 0)), ("labels_from_the_unsorted_frame", verify.replace_expr("data_sorted[LABEL_KEY]", "data[LABEL_KEY]"))]),
+            (GetCounts(), [("negatives_miscounted", verify.replace_expr("n - n_positive", "n"))])]
     try:
         from . import C04_more
         items += C04_more.items(rep)
